@@ -138,6 +138,9 @@ def sd_ops(dual):
         for c in CS:
             for hint in (True, False):
                 ops.append(("ins", x, c, hint))
+    for x in (0.25, 0.5):
+        for hint in (True, False):
+            ops.append(("dup", x, 2.0, hint))      # a second item with a coordinate that is already stored
     for x in XS + [1.0]:
         for v in OVS:
             ops.append(("ovw", x, v))
@@ -244,14 +247,27 @@ def _sd_history(dual, seq, ops=None, maxlen=None):
     for j, k in enumerate(seq):
         op = ops[k]
         ctx = f"{'dual' if dual else 'plain'}{'' if maxlen is None else f' maxlen={maxlen}'} ops {[ops[i] for i in seq[:j + 1]]}"
-        if op[0] == "ins":
+        if op[0] in ("ins", "dup"):
             _, x, c, hint = op
             it = mk(x, c, localR(c))
-            rightn = next(i for i in model.items if i.GetX() > x)
+            if op[0] == "dup":
+                # equal coordinates: with a hint the new item goes immediately to the left of the hinted item (the stored
+                # item with that coordinate); without one, to the left of the first item strictly to the right
+                rightn = next(i for i in model.items if i.GetX() == x) if hint else next(i for i in model.items if i.GetX() > x)
+            else:
+                rightn = next(i for i in model.items if i.GetX() > x)
             sd.InsertDataItem(it, rightn if hint else None)
-            model.items.append(it)
-            model.items.sort(key=lambda i: i.GetX())
+            model.items.insert(model.items.index(rightn), it)
+            events = list(_LOG)
             drain(model, msgs, ctx)
+            # exactly the new interval - and, with a hint, the shortened right neighbour - is queued by an insertion
+            for qid in {ev[1] for ev in events}:
+                ins = [ev[3] for ev in events if ev[0] == "ins" and ev[1] == qid]
+                want = [it] + ([rightn] if hint else [])
+                if sorted(map(id, ins)) != sorted(map(id, want)) and maxlen is None:
+                    msgs.append(f"{ctx}: the insertion queued x={[i.GetX() for i in ins]} in one queue; exactly "
+                                f"x={[i.GetX() for i in want]} (the new item{' and the hinted neighbour' if hint else ''}) "
+                                f"should be queued")
             for qid, ents in model.q.items():
                 if ents:
                     model.role[qid] = role_of(ents)
@@ -379,8 +395,9 @@ def _sd_history(dual, seq, ops=None, maxlen=None):
         if msgs:
             return msgs, None, []
     have = {i.GetX() for i in model.items}
+    xs_all = [i.GetX() for i in model.items]
     enabled = [k for k, op in enumerate(ops)
-               if (op[0] == "ins" and op[1] not in have) or (op[0] == "ovw" and op[1] in have and
+               if (op[0] == "ins" and op[1] not in have) or (op[0] == "dup" and xs_all.count(op[1]) == 1) or (op[0] == "ovw" and op[1] in have and
                                                              next(i for i in model.items if i.GetX() == op[1]).globalR != op[2])
                or op[0] in ("clear", "refill", "best", "bestlocal")]
     return msgs, model, enabled
